@@ -93,21 +93,21 @@ def covered (x : Sequence) : Bool :=
   wfLayoutG x && !(m.locus.circular && m.locus.linear)
     && m.other.all (wfOtherJ 11) && x.features.all wfFeatureRT
     && refsFit 0 m.references && GbLayout.wf (toRec x)
+    && x.features.all wfFeatureLoc
 
 def refApprox (a : Reference) (b : Genbank.Reference) : Bool :=
   a.index == b.index && a.authors == b.authors && a.title == b.title && a.journal == b.journal
     && a.pubMed == b.pubmed && a.remark == b.remark && a.range == b.range
 
 /-- the location STRUCTURE that `parseLocation` (property C02's model of what `Parse` does with the
-location text) derives from the text read back is the feature's `SequenceLocation` (modulo `normLoc`).
-Compared for features written from a cached text; for a structurally assembled feature the text
-`BuildLocationString` prints is compared, and the structure rests on a C02 lemma about that text that
-does not exist yet (PARTIAL) -/
+location text) derives from the text read back is the feature's `SequenceLocation` (modulo `normLoc`) —
+for a feature written from a cached text AND for a structurally assembled one (then the text is what
+`BuildLocationString` writes: `Lemmas/GbLocStruct.lean`, `parse_buildLoc_struct`, over C02's
+`parseLocation_tprint`) -/
 def locStructOk (a : Feature) (b : Genbank.Feature) : Bool :=
-  a.gbkLocationString == [] ||
-    match Location.parseLocation b.gbkLoc with
-    | .ok q => locBeq (normLoc q) (normLoc a.sequenceLocation)
-    | _ => false
+  match Location.parseLocation b.gbkLoc with
+  | .ok q => locBeq (normLoc q) (normLoc a.sequenceLocation)
+  | _ => false
 
 /-- type, location text (the cached text, else what `BuildLocationString` prints), location structure
 (`locStructOk`) and the qualifier map -/
